@@ -119,12 +119,12 @@ Lemma prune_blocks_wr : forall d kh e h cnt n carry,
 Proof.
   induction cnt; simpl; intros n carry He Hn Hc; [constructor|].
   destruct (find_num n (d_fam d FSU)) as [sb|]; [|constructor].
-  specialize (IHcnt (n + 1) [] He ltac:(lia) ltac:(constructor)).
-  destruct (prune_blocks d kh e (n + 1) cnt []) as [r ok]. simpl in *. constructor; auto.
-  apply Forall_app. split; auto. apply Forall_app. split.
-  - destruct (n + 1 =? e); constructor; [|constructor]. simpl. split; [discriminate|lia].
-  - constructor; [simpl; split; [discriminate|lia]|].
-    destruct kh; repeat constructor; simpl; try discriminate; lia.
+  specialize (IHcnt (n + 1) [WDel FHashNum n (b_id sb)] He ltac:(lia)
+                ltac:(constructor; [simpl; split; [discriminate|lia]|constructor])).
+  destruct (prune_blocks d kh e (n + 1) cnt [WDel FHashNum n (b_id sb)]) as [r ok]. simpl in *. constructor; auto.
+  apply Forall_app. split; auto.
+  constructor; [simpl; split; [discriminate|lia]|].
+  destruct kh; repeat constructor; simpl; try discriminate; lia.
 Qed.
 
 Lemma floor_fold_le : forall l m, fold_left (fun m x => N.min m (b_num x)) l m <= m.
